@@ -1503,6 +1503,10 @@ Definition judge_prog (p : prog) (o : obs8) : sx :=
   | O8FmtPanic _ =>
       if existsb is_panic ti then v_kf "matrix-jagged-panic" else v_bad "unexpected-format-panic" (Qx (render tc))
   | O8Fmt ob =>
+      (* the case claims that its source text denotes the tree p, a program of code statements only; when the real parser
+         read (part of) the text as prose, the claim is void and nothing is compared (the Mechdown reading of a line is
+         C10's subject; the real round trip of such a text is still judged by the `diff` stream) *)
+      if mem "Paragraph" (o_feat ob) then v_adv "source-read-as-prose" else
       if String.eqb (o_text ob) (render tc) then
         (if all_good ob then v_ok "roundtrip"
          else match lex_class_of p with
